@@ -4,7 +4,7 @@ open Scrapli Scrapli.Chan
 
 /-! Line protocol (fields separated by one blank):
   `scen <promptRx> <depth> <ret hex> <rough 0|1> <cuts n,n,..|.> <init avail hex> <device outputs hexlist> <rxtable> <ops>`
-  rxtable: `.` or `hexprompt=rxwire` joined by `,` — the compiled form of explicit `^…$` prompts
+  rxtable: `.` or `hexprompt=rxwire` joined by `|` — the compiled form of explicit `^…$` prompts
   ops joined by `;`:  `gp` | `si:<input hex>:<strip><eager><eagerInput>` |
                       `ii:<in/resp/hidden 0|1 joined by +>:<complete hexlist>`
   device = scripted: the i-th write call is answered with the i-th entry of the output list
@@ -30,7 +30,7 @@ def parseCuts (s : String) : Option (List Nat) :=
 
 def parseRxTable (s : String) : Option (List (Bytes × Rx.Rx)) :=
   if s == "." then some [] else
-  (s.splitOn ",").mapM (fun e =>
+  (s.splitOn "|").mapM (fun e =>
     match e.splitOn "=" with
     | [h, r] => do pure ((← Hex.decode h), (← Rx.parse r))
     | _ => none)
